@@ -290,10 +290,17 @@ func (u *Unit) evalBuiltin(st *State, e *ast.CallExpr, name string) Term {
 			}
 			return Term{S: u.newMap(st, ut), T: t}
 		case *types.Chan:
-			for _, a := range e.Args[1:] {
-				u.eval(st, a)
+			capT := c.idxConst(0)
+			for i, a := range e.Args[1:] {
+				v := u.eval(st, a)
+				if i == 0 {
+					capT = u.toIdx(v)
+				}
 			}
 			r := u.newRef(st)
+			// ghost: the buffer capacity the channel was made with (spec builtin chancap)
+			c.declareFun("chan.cap", "(Int) "+c.idxSort())
+			st.assume(eq("(chan.cap "+r+")", capT))
 			return Term{S: r, T: t}
 		}
 	case "new":
